@@ -137,6 +137,48 @@ func init() {
 					}
 				}
 			}
+			if env.Thorough() {
+				// every ordered triple of entry types
+				for _, a := range c08Types {
+					for _, b := range c08Types {
+						for _, c := range c08Types {
+							if !yield(C08Case{Part: "triple", List: []model.Entry{c08Entry(a, "", 1, false), c08Entry(b, "", 2, true), c08Entry(c, "", 3, false)}}) {
+								return
+							}
+						}
+					}
+				}
+				// every ordered pair under every umask, and every (type, tag) pair with file_info
+				for _, um := range []int{0o027, 0o077, 0o777} {
+					for _, a := range c08Types {
+						for _, b := range c08Types {
+							if !yield(C08Case{Part: "umask-pair", Umask: um, List: []model.Entry{c08Entry(a, "", 1, false), c08Entry(b, "", 2, true)}}) {
+								return
+							}
+						}
+					}
+				}
+				for _, name := range c08Names {
+					for _, typ := range c08Types {
+						for _, tag := range tags {
+							e := c08Entry(typ, tag, 1, false)
+							e.Dst = "/etc/c08 names/" + name
+							if !yield(C08Case{Part: "names", List: []model.Entry{e}}) {
+								return
+							}
+						}
+					}
+				}
+				for _, ov := range Formats {
+					for _, a := range c08Types {
+						for _, ta := range tags {
+							if !yield(C08Case{Part: "override-history", Override: ov, List: []model.Entry{c08Entry(a, ta, 1, false), c08Entry("config", "", 2, false)}}) {
+								return
+							}
+						}
+					}
+				}
+			}
 			{
 				for _, a := range c08Types {
 					for _, ta := range tags {
